@@ -742,16 +742,20 @@ func (c *Ctx) RuleContextDirs() *Result {
 		if load.ShortPkg(load.FnPkgPath(fn)) != "context" || len(fn.Blocks) == 0 {
 			continue
 		}
+		bound := map[ssa.Value]string{}
 		var eval func(v ssa.Value, d int) (string, bool)
 		eval = func(v ssa.Value, d int) (string, bool) {
-			if d > 6 {
+			if d > 8 {
 				return "", false
 			}
 			switch x := stripConv(v).(type) {
 			case *ssa.Const:
 				return constString(x)
 			case *ssa.Parameter:
-				if x.Type().Underlying().String() == "string" {
+				if bv, ok := bound[x]; ok {
+					return bv, true
+				}
+				if x.Type().Underlying().String() == "string" && x.Parent() == fn {
 					return "ROOT", true
 				}
 			case *ssa.BinOp:
@@ -762,6 +766,19 @@ func (c *Ctx) RuleContextDirs() *Result {
 				}
 			case *ssa.Call:
 				f := staticCallee(&x.Call)
+				// a helper of the repository that builds a path from its arguments
+				if sf := staticFn(&x.Call); sf != nil && c.P.IsRepoFn(sf) && len(sf.Blocks) == 1 {
+					if r, ok := sf.Blocks[0].Instrs[len(sf.Blocks[0].Instrs)-1].(*ssa.Return); ok && len(r.Results) == 1 {
+						for i, a := range x.Call.Args {
+							if i < len(sf.Params) {
+								if av, ok := eval(a, d+1); ok {
+									bound[sf.Params[i]] = av
+								}
+							}
+						}
+						return eval(r.Results[0], d+1)
+					}
+				}
 				if (isFn(f, "path", "Join") || isFn(f, "path/filepath", "Join")) && len(x.Call.Args) == 1 {
 					if sl, ok := x.Call.Args[0].(*ssa.Slice); ok {
 						var parts []string
